@@ -10,8 +10,43 @@ claim('C16', 'fault_enumeration', TECH + ': seeded worlds x enumerated solver-fa
       'Trusted: the taps (monkeypatched module globals), numpy/pandas comparison, the generator producing well-formed worlds; worlds are small (<=9 hydraulic steps).',
       'DESIGN.md section 4 (C16)')
 
+INV_NOTE = ('Trusted: the taps (monkeypatched module globals), the reference models in wsim/refmodel.py (written from the documentation, '
+            'sharing no code with WNTR), numpy/pandas; the final residual norm used to tighten tolerances is read from the real evaluator. '
+            'Worlds are small (3-14 nodes); a clean batch is evidence, not proof.')
+
+claim('C01', 'exploration', TECH + ': invariant monitor on every reported row of seeded simulated runs with pause/persist/restart, rescued solver faults and evaluator-order perturbation',
+      'Seeded worlds (loops, parallel links, several sources, links declared into/out of tanks, multi-category demands, leaks on junctions and tanks, '
+      'DD/PDD, pattern_start, multiplier, report grid/ALL) run under the simulator with faults; every reported row is checked for the junction balance, '
+      'tank/reservoir demand = net inflow and the demand-driven bookkeeping identity with an independent pattern evaluation.',
+      INV_NOTE, 'DESIGN.md section 4 (C01)')
+claim('C02', 'exploration', TECH + ': per-row reference head-flow laws selected by the reported status, on seeded runs with faults',
+      'Every reported row x link is compared with the reference law for its type and reported status (Hazen-Williams + minor loss incl. the documented '
+      'smoothing term, own 1/2/3-point pump fits, power pumps, PRV/PSV/FCV/TCV active and open laws, no reverse flow in pumps/CV pipes); statuses are '
+      'driven by reservoir-head patterns and controls; both HW approximations.',
+      INV_NOTE, 'DESIGN.md section 4 (C02)')
+claim('C06', 'exploration', TECH + ': explicit-Euler conservation check over every pair of consecutive solved steps, across pause/persist/restart',
+      'The stored volume of every tank (cylinder or volume curve, reference volume function) must change by net inflow x dt between consecutive accepted '
+      'steps, start at init_level, stay within the limits up to ~2 s of flow and not discharge at min / fill at max; restarts are placed at grid points so '
+      'the Euler chain must be continuous across them.',
+      INV_NOTE, 'DESIGN.md section 4 (C06)')
+claim('C07', 'exploration', TECH + ': pressure sweeps driven through simulated time, per-row curve check and per-junction monotonicity/continuity over the run history',
+      'PDD worlds whose source head pattern walks junction pressures from far below Pmin to far above Preq with samples at the band edges; global and '
+      'per-junction parameters; the delivered fraction is compared with the documented curve (bracketed inside the two smoothing bands) and must be '
+      'non-decreasing and continuous in pressure over the history.',
+      INV_NOTE + ' The schedule dimension adds little for this property (DESIGN.md says so); it is an invariant of reported state on solved networks.', 'DESIGN.md section 4 (C07)')
+claim('C08', 'exploration', TECH + ': leak windows on/off the hydraulic grid as timed events, orifice law per reported row, restarts inside the window',
+      'Leaks on junctions and tanks with start/end on and off the grid, empty windows, only start/only end, removed leaks, negative pressures, DD/PDD; '
+      'every reported row is checked against the window reference (active iff start <= t < end) and Cd*A*sqrt(2gp); with report ALL the window edges must '
+      'be solved steps; the leak flag is durable state across pause/pickle/restart.',
+      INV_NOTE, 'DESIGN.md section 4 (C08)')
+claim('C09', 'exploration', TECH + ': reference BFS reachability compared with the isolation flags at every accepted step of seeded open/close schedules, with restarts while isolated',
+      'Schedules of controls open and close links so that districts disconnect and reconnect (bridges, parallel pairs, initially closed links); at every '
+      'accepted step the flagged set must equal the complement of reachability over reported statuses, isolated rows must be exact zeros and connected '
+      'junctions with demand must not be zeroed; pauses with a new simulator are placed while districts are isolated.',
+      INV_NOTE, 'DESIGN.md section 4 (C09)')
+
 _PENDING = 'check not built yet in this session (planned, see DESIGN.md section 11); not claimed until it runs clean'
-for _p in ['C01', 'C02', 'C03', 'C04', 'C05', 'C06', 'C07', 'C08', 'C09', 'C10', 'C11', 'C12', 'C13', 'C14', 'C15']:
+for _p in ['C03', 'C04', 'C05', 'C10', 'C11', 'C12', 'C13', 'C14', 'C15']:
     NOT_APPLICABLE[_p] = _PENDING
 NOT_APPLICABLE['C17'] = 'pure total functions of (value, unit, parameter): no state, clock, I/O or failure mode for a schedule or fault to act on; deterministic simulation has nothing to vary (DESIGN.md section 7)'
 NOT_APPLICABLE['C18'] = 'pure function of (graph, valve layer) returning a labelling: nothing evolves, fails or persists (DESIGN.md section 7)'
